@@ -468,7 +468,7 @@ VocabSmall == {"div", "p", "ul", "li", "span", "a", "img", "select", "option", "
                "table", "tbody", "tr", "td", "template", "noscript", "button"}
 VocabQuick == {"div", "p", "ul", "li", "span", "a", "img", "select", "option", "optgroup", "script", "my-el", "pre",
                "table", "tbody", "tr", "td", "template", "noscript", "button", "ruby", "rt", "textarea"}
-VocabTable == {"table", "tbody", "tr", "td", "colgroup", "col", "script", "template", "span", "p"}
+VocabTable == {"table", "tbody", "tr", "td", "colgroup", "col", "script", "template"}
 VocabList == {"ul", "li", "dl", "dt", "dd", "p", "div", "script", "span", "a"}
 VocabSelect == {"select", "optgroup", "option", "script", "template", "span", "p", "pre"}
 VocabInline == {"span", "a", "img", "button", "textarea", "br", "p", "my-el"}
